@@ -102,8 +102,11 @@ func vhwsClass(err error) string {
 
 // payload byte at stream position i of a direction
 func vhwsByte(seed int, i int) byte {
-	x := uint32(seed)*2654435761 + uint32(i)*40503 + uint32(i>>8)*97
-	return byte(x >> 13)
+	x := (uint32(i) + uint32(seed)*0x9E3779B1) * 0x85EBCA6B
+	x ^= x >> 15
+	x *= 0xC2B2AE35
+	x ^= x >> 16
+	return byte(x)
 }
 
 func vhwsFill(seed, off, n int) []byte {
@@ -274,7 +277,7 @@ func vhwsReader(c *Conn, d vhwsDir, untilPhase1 bool, out *vhwsDirOut, phase1 ch
 	}
 	for i := 0; i < maxReads; i++ {
 		buf := make([]byte, bufs[i%len(bufs)])
-		_ = c.SetReadDeadline(time.Now().Add(6 * time.Second))
+		_ = c.SetReadDeadline(time.Now().Add(10 * time.Second))
 		n, err := c.Read(buf)
 		cls := vhwsClass(err)
 		if n < 0 || n > len(buf) {
@@ -382,7 +385,7 @@ func vhwsRunCase(c vhwsCase) (out vhwsCaseOut) {
 		}()
 	}
 	// barrier: both phase-1 streams consumed (or given up), both phase-1 writers done
-	deadline := time.After(9 * time.Second)
+	deadline := time.After(12 * time.Second)
 	for d := 0; d < 2; d++ {
 		select {
 		case <-phase1[d]:
